@@ -371,4 +371,8 @@ func Version.MarshalControl
 
 property C03: lemma val_prefix, lemma alldig_prefix, lemma wf_chars, parseInto, Parse, (*Version).UnmarshalControl, Version.StringWithoutEpoch, Version.String, Version.MarshalControl
 
+// the version parser as part of C18: total (no panic: every BOUNDS/NIL/OVERFLOW obligation), a value xor an error,
+// and no write outside the result (frames)
+property C18: parseInto, Parse, (*Version).UnmarshalControl, cisdigit, cisalpha
+
 @*/
